@@ -5,6 +5,7 @@ mod c18;
 mod c35;
 mod actions;
 mod c20;
+mod c21;
 mod c33;
 mod gtchk;
 mod oraclechk;
@@ -38,6 +39,7 @@ fn main() {
         "C17" => cfgkeys::run_c17(&cli),
         "C18" => c18::run(&cli),
         "C20" => c20::run(&cli),
+        "C21" => c21::run(&cli),
         "C22" | "C23" => actions::run(&cli),
         "C24" => oraclechk::run_c24(&cli),
         "C25" => oraclechk::run_c25(&cli),
